@@ -349,3 +349,117 @@ func init() {
 		return strings.IndexByte(a[0].(string), a[1].(uint8))
 	}
 }
+
+// strings.FieldsFunc over a join of table words: the splitting function is
+// evaluated (concretely) on every rune of the separator and on every rune that
+// occurs in the table. Fields that are exactly one word stay table-selected;
+// a field into which separator runes were glued contains whitespace and so is
+// no word of a clean table: it is returned as a sentinel string that equals no
+// table word (only equality / lookup semantics are preserved for it).
+func natStringsFieldsFunc(fr *frame, fn *ssa.Function, args []value) value {
+	i := fr.i
+	isSep := func(r rune) bool {
+		res := call(i, fr, 0, args[1], []value{int32(r)})
+		b, ok := res.(bool)
+		if !ok {
+			panic(engineAbort{"strings.FieldsFunc: splitting function with a symbolic result"})
+		}
+		return b
+	}
+	switch s := args[0].(type) {
+	case string:
+		var out []value
+		start := -1
+		for k, r := range s {
+			if isSep(r) {
+				if start >= 0 {
+					out = append(out, s[start:k])
+					start = -1
+				}
+			} else if start < 0 {
+				start = k
+			}
+		}
+		if start >= 0 {
+			out = append(out, s[start:])
+		}
+		return out
+	case symjoin:
+		if s.sep == "" || strings.IndexFunc(s.sep, func(r rune) bool { return !unicode.IsSpace(r) }) >= 0 {
+			panic(engineAbort{"strings.FieldsFunc of a symbolic join with a non-whitespace separator"})
+		}
+		checked := map[*strTable]bool{}
+		var out []value
+		var cur []value // parts and glued runes of the current field
+		emit := func() {
+			if len(cur) == 0 {
+				return
+			}
+			allRunes := true
+			var sb strings.Builder
+			for _, c := range cur {
+				if r, ok := c.(rune); ok {
+					sb.WriteRune(r)
+				} else {
+					allRunes = false
+				}
+			}
+			switch {
+			case allRunes:
+				out = append(out, sb.String())
+			case len(cur) == 1:
+				out = append(out, cur[0])
+			default:
+				out = append(out, fmt.Sprintf("\ufffdglued-field-%d\ufffd", len(out)))
+			}
+			cur = nil
+		}
+		for k, p := range s.parts {
+			if k > 0 {
+				for _, r := range s.sep {
+					if isSep(r) {
+						emit()
+					} else {
+						cur = append(cur, r)
+					}
+				}
+			}
+			switch p := p.(type) {
+			case tabstr:
+				if !p.tab.clean {
+					panic(engineAbort{"strings.FieldsFunc: table holds empty or whitespace-containing strings"})
+				}
+				if !checked[p.tab] {
+					checked[p.tab] = true
+					seen := map[rune]bool{}
+					for _, w := range p.tab.elems {
+						for _, r := range w {
+							if !seen[r] {
+								seen[r] = true
+								if isSep(r) {
+									panic(engineAbort{"strings.FieldsFunc: the splitting function splits inside table words"})
+								}
+							}
+						}
+					}
+				}
+				cur = append(cur, p)
+			case string:
+				for _, r := range p {
+					if isSep(r) {
+						emit()
+					} else {
+						cur = append(cur, r)
+					}
+				}
+			default:
+				panic(engineAbort{fmt.Sprintf("strings.FieldsFunc: part %T", p)})
+			}
+		}
+		emit()
+		return out
+	}
+	panic(engineAbort{fmt.Sprintf("strings.FieldsFunc of %T", args[0])})
+}
+
+func init() { natives["strings.FieldsFunc"] = natStringsFieldsFunc }
